@@ -187,7 +187,7 @@ Proof.
   - intro x. split; intro Hx; [eapply Permutation_in; eauto|eapply Permutation_in; [symmetry; eauto|auto]].
 Qed.
 
-Definition cfg_before_fix : cfg := mk_cfg false true true true true true true.
+Definition cfg_before_fix : cfg := mk_cfg false true true true true true true true.
 
 (** before the fix (no sort in ToPb) two replicas store different byte strings *)
 Theorem edit_sudoers_refuted_before_fix :
@@ -219,7 +219,7 @@ Proof.
   apply commit_obj_deterministic; auto.
 Qed.
 
-Definition cfg_dirties_unsorted : cfg := mk_cfg true false true true true true true.
+Definition cfg_dirties_unsorted : cfg := mk_cfg true false true true true true true true.
 
 (** iterating journal.dirties directly: two accounts created by one transaction receive their
     account numbers in map order *)
@@ -523,7 +523,7 @@ Theorem step_deterministic c abi π π' δ δ' path s m :
 Proof.
   intros Hc Habi H H'.
   unfold cfg_ok in Hc. repeat (apply andb_true_iff in Hc as [Hc ?]).
-  destruct m as [add cs|dirties|vals pvs npairs pool|addrs|sel]; simpl.
+  destruct m as [add cs|dirties|vals pvs npairs pool|addrs|sel|ws]; simpl.
   - rewrite (edit_sudoers_deterministic c (π (10 :: path)) (π' (10 :: path))); auto.
   - rewrite (commit_deterministic c π π'); auto.
   - rewrite (remove_invalid_deterministic c π π' δ δ'); auto.
@@ -535,6 +535,7 @@ Proof.
     rewrite (total_weight_deterministic π π'); auto.
   - rewrite (add_precompiles_deterministic c π π'); auto.
   - rewrite (method_by_id_deterministic (π (11 :: path)) (π' (11 :: path))); auto.
+  - unfold devgas_payout. match goal with E : c_devgas_slice_order c = true |- _ => rewrite E end. reflexivity.
 Qed.
 
 Theorem run_from_deterministic c abi π π' δ δ' h :
@@ -571,7 +572,7 @@ Qed.
 
 (** the producer goroutine of omap.Range gives up after a bound (a `select` against a timer around the send): the SAME
     history under the SAME map schedule ends in different prices on a replica whose oracle EndBlock stalls between two pairs *)
-Definition cfg_range_timeout : cfg := mk_cfg true true true true true true false.
+Definition cfg_range_timeout : cfg := mk_cfg true true true true true true false true.
 
 Theorem run_refuted_range_timeout :
   exists h, run cfg_range_timeout [] sched_id clock_fast h <> run cfg_range_timeout [] sched_id (clock_stall_second 1500) h.
@@ -581,6 +582,18 @@ Proof.
              (12, mk_ballot true 101 [mk_vote 1 5 VWin; mk_vote 2 3 VWin])] 2 1000].
   vm_compute. discriminate.
 Qed.
+
+(** the dev-gas ante paying by ranging over a map[withdrawer]coins: two withdrawers without an account receive their account
+    numbers in map order *)
+Definition cfg_devgas_map_order : cfg := mk_cfg true true true true true true true false.
+
+Theorem run_refuted_devgas_map_order :
+  exists h, run cfg_devgas_map_order [] sched_id clock_fast h <> run cfg_devgas_map_order [] sched_rev clock_fast h.
+Proof. exists [MDevGasPayout [7; 3]]. vm_compute. discriminate. Qed.
+
+Example devgas_payout_nonvacuous :
+  ev_accts (devgas_payout cfg_all sched_rev [] [7; 3; 7] (mk_evm [(3, (0, 5))] 1 [])) = [(3, (0, 5)); (7, (1, 0))].
+Proof. vm_compute. reflexivity. Qed.
 
 (* ------------------------------------------------------------------ non-vacuity *)
 
